@@ -278,6 +278,8 @@ struct EpisodeState {
     feeds: Vec<TracerFeed>,
     resolver: DnsResolver,
     facts: BTreeMap<IpAddr, AddrFacts>,
+    /// Every address the GeoIP database has coordinates for (used in this episode or not).
+    geo_addrs: std::collections::BTreeSet<IpAddr>,
     targets: Vec<IpAddr>,
     source_ips: Vec<String>,
     frames_left: u32,
@@ -456,6 +458,33 @@ impl EpisodeState {
                 format!("c18.leak.{kind}.{view}"),
                 format!("frame {}: privacy ttl {n} is in force but the {kind} \"{s}\" of the hop with ttl {ttl} is on the screen ({view} view)", self.frames),
             );
+        }
+        // the map marks a location only for hops that may be shown: every located address
+        // has coordinates of its own, so there are at most as many pins on the frame as
+        // there are located addresses among the hops above n (dialogs and pins that share
+        // a cell only take pins away)
+        if app.show_map {
+            let pins: usize = rows.iter().map(|r| r.matches('\u{1F4CD}').count()).sum();
+            let mut located: Vec<&IpAddr> = hops
+                .iter()
+                .filter(|h| h.ttl() > n)
+                .flat_map(|h| h.addrs())
+                .filter(|a| self.geo_addrs.contains(*a))
+                .collect();
+            located.sort();
+            located.dedup();
+            self.counters.add("reach.c18.map-frame-under-privacy", 1);
+            if pins > 0 {
+                self.counters.add("reach.c18.map-pins-under-privacy", 1);
+            }
+            if pins > located.len() {
+                let view = view_name(app);
+                self.violation(
+                    "C18",
+                    format!("c18.leak.geoip-pin.{view}"),
+                    format!("frame {}: privacy ttl {n} is in force, {} located address(es) belong to hops above it, but the map shows {pins} location pin(s)", self.frames, located.len()),
+                );
+            }
         }
         for s in self.source_ips.clone() {
             if !visible.iter().any(|v| v.contains(&s)) && rows.iter().any(|r| contains_token(r, &s)) {
@@ -962,6 +991,11 @@ pub fn run_episode(tape: Tape, env: &Env, check_c18: bool) -> Outcome {
         for name in ["unprivileged", "max-flows"] {
             gen.given[crate::cfggen::opt_index(name)] = Default::default();
         }
+        // ... and in two of five of those the flow limit is small enough to be reached
+        if t.chance(400) {
+            gen.given[crate::cfggen::opt_index("max-flows")].cli = Some(["1", "2"][t.pick(2)].to_string());
+            counters.add("episodes.multipath-biased.small-flow-limit", 1);
+        }
         counters.add("episodes.multipath-biased", 1);
         1
     } else {
@@ -1104,6 +1138,15 @@ pub fn run_episode(tape: Tape, env: &Env, check_c18: bool) -> Outcome {
         .map(|(f, name)| TraceInfo::new(f.tracer.clone(), name.clone()))
         .collect();
     let mut app = TuiApp::new(tui_config, resolver.clone(), geoip, traces);
+    // the privacy ttl the configuration asks for is the one in force when the first frame is
+    // drawn (0 is a value like any other: nothing but the source address is hidden)
+    if app.tui_config.privacy_max_ttl != cfg.tui_privacy_max_ttl {
+        violations.push(Violation::new(
+            "C18",
+            "c18.configured-privacy-not-in-force",
+            format!("the configuration gives privacy ttl {:?}, the application starts with {:?}", cfg.tui_privacy_max_ttl, app.tui_config.privacy_max_ttl),
+        ));
+    }
     let focus = [0u8, 1, 2, 3, 4, 0, 1, 2][t.pick(8)];
     // a dialog episode needs enough key presses to walk a list of some thirty items
     let frames_budget = if focus == 4 { 60 + t.draw(140) } else { 20 + t.skewed(180) };
@@ -1115,6 +1158,7 @@ pub fn run_episode(tape: Tape, env: &Env, check_c18: bool) -> Outcome {
         feeds,
         resolver,
         facts,
+        geo_addrs: env.geo_records.iter().map(|g| g.addr).collect(),
         targets,
         source_ips,
         frames_left: frames_budget,
